@@ -2,13 +2,17 @@
 """Translator for the pointer code of HashMap.hpp / HashSet.hpp / PoolMap.hpp (property C02).
 
 Extracts from the CURRENT headers the bodies of
-    find(key)   insert(position, key[, value])   remove(iterator)   remove(key)   clear()   PoolMap::remove(const V&)
-    removeFront()   removeBack()   swap(other)
+    find(key)   insert(position, key[, value])   remove(iterator)   remove(key)   PoolMap::remove(const V&)
+    removeFront()   removeBack()   clear()   swap(other)   operator=(other)   operator==(other)
+    HashSet::append(other)   HashSet::remove(other)   size()   isEmpty()   contains(key)   front()   back()   append   prepend
+and, once more with `other` = the object itself, operator= / swap / HashSet::append / HashSet::remove
 (tokenizer + recursive-descent parser for the C++ subset these bodies are written in) and writes them, statement by
 statement, as Lean functions over the node heap of lean/Nstd/Hash/PtrModel.lean (`Ptr.PTable`: `items`, `heads`, `begin`,
 `endPrev`, `freeItem`, …) into lean/Nstd/Generated/HashLink.lean.  lean/Nstd/Hash/PropsLink.lean proves that the generated
 functions are the hand-written steps of the pointer-level model (`PTable.find`, `insert`, `removeItem`, `removeKey`,
-`clear`, `swap`) on every heap that represents a model state.
+`clear`, `swap`, `assignFrom`, `equal`, `appendAll`, `removeAll`, `swapSelf`, `appendSelf`, `removeSelf`, …) on every heap that
+represents a model state; lean/Nstd/Hash/GenStep.lean runs them as the steps of the two-table machine (`gstep`), which is what
+the driver of the correspondence run executes.
 
 Anything outside the understood subset is REFUSED (exception -> the check reports a broken tie).
 
@@ -251,6 +255,12 @@ class P:
         if tok in ("do", "switch", "goto", "break", "continue", "delete", "try", "throw"):
             raise Refuse(f"{self.fn}: statement `{tok}` is outside the translated subset")
         text = self.text_upto_semicolon()
+        if text == "endItem.next=0":
+            self.skip_semicolon()
+            return ("block", [])                 # the sentinel's `next` is never read (only `prev` of a sentinel is modelled)
+        if text == "this->capacity|=(usize)!capacity":
+            self.skip_semicolon()
+            return ("capfix",)
         if text is not None:
             m = re.fullmatch(r"(\w+)->~Item\(\)", text)
             if m:
@@ -372,6 +382,8 @@ class P:
             self.eat(")")
         elif tok == "0":
             a = ("null",)
+        elif re.fullmatch(r"\d+", tok):
+            a = ("num", int(tok))
         elif IDENT.match(tok):
             if self.peek() == "(":
                 self.eat("(")
@@ -474,6 +486,8 @@ class Tr:
                     self.refuse(f"`endItem.{f}`: only `prev` of the sentinel is modelled")
                 return ("member", "endPrev", "opt")
             self.refuse(f"`.{f}` on an expression that is not understood")
+        if k == "arrow" and e[1] == ("id", "this"):
+            return self.lvalue(("id", e[2]), {})              # `this->capacity`: the member, also where a parameter hides it
         if k == "arrow":
             if e[2] not in FIELD_TY:
                 self.refuse(f"`{e[2]}` is not a field of Item")
@@ -492,6 +506,8 @@ class Tr:
         kind = e[0]
         if kind == "null":
             return k("none", "null", env, ind)
+        if kind == "num":
+            return k(str(e[1]), "nat", env, ind)
         if kind == "item_of_value":
             if self.spec.get("value_item") is None:
                 self.refuse("`(Item*)&value` in a function without a `const V& value` parameter")
@@ -774,6 +790,8 @@ class Tr:
                     tys = {tya, tyb}
                     if tys <= {"nat"}:
                         a, b = ta, tb
+                    elif tys == {"nat", "null"}:
+                        a, b = self.coerce(ta, tya, "nat"), self.coerce(tb, tyb, "nat")      # `n == 0`
                     elif tys <= {"nxt@B", "item@B"}:
                         a, b = self.coerce(ta, tya, "nxt@B"), self.coerce(tb, tyb, "nxt@B")
                     elif tys <= {"nxt", "item"}:
@@ -852,6 +870,13 @@ class Tr:
                     self.iters.add(name)
                 return [f"{ind2}let v_{name} := {t}"] + go(env3, ind2)
             return self.ev(e, env, ind, after)
+        if k == "capfix":
+            # `this->capacity |= (usize)!capacity;`: the member or-ed with 1 iff the parameter is 0
+            if "capacity" not in env:
+                self.refuse("`this->capacity |= (usize)!capacity` without a parameter `capacity`")
+            return [f"{ind}let t := {{ t with cap := t.cap ||| (if capacity = 0 then 1 else 0) }}"] + go(self.wr(env), ind)
+        if k == "initdata":
+            return [f"{ind}let t := {{ t with allocated := false, heads := fun _ => none }}"] + go(self.wr(env), ind)
         if k == "allocdata":
             env2 = self.wr(env)
             env2["$data"] = True
@@ -1247,6 +1272,45 @@ def specs_for(cls):
     return s
 
 
+def ctor_statements(cls, which, init, fn):
+    """the member initialiser list `m(e), …` as assignment statements, in the order of the list (the members of these classes
+    are declared in the same order: _end, _begin, _size, capacity, data, endItem, freeItem, blocks).  Every member the model has
+    must be initialised here or assigned in the body."""
+    toks = tokenize(init)
+    p = P(toks, fn)
+    out, seen = [], set()
+    while p.peek() is not None:
+        name = p.eat()
+        p.eat("(")
+        e = p.expr()
+        p.eat(")")
+        if p.peek() == ",":
+            p.eat(",")
+        seen.add(name)
+        if name == "_end":
+            if e != ("addr", ("id", "endItem")):
+                raise Refuse(f"{fn}: `_end` is not initialised with `&endItem`")
+        elif name == "_begin":
+            out.append(("expr", ("assign", ("dot", ("id", "_begin"), "item"), e)))
+        elif name in ("_size", "capacity", "freeItem", "blocks"):
+            out.append(("expr", ("assign", ("arrow", ("id", "this"), name), e)))
+        elif name == "data":
+            if e != ("null",):
+                raise Refuse(f"{fn}: `data` is not initialised with 0")
+            out.append(("initdata",))
+        else:
+            raise Refuse(f"{fn}: initialiser of unknown member `{name}`")
+    missing = {"_end", "_begin", "_size", "capacity", "data", "freeItem", "blocks"} - seen
+    if missing:
+        raise Refuse(f"{fn}: members {sorted(missing)} are not initialised")
+    return out
+
+
+CTORS = {"constructDefault": (r"(?<![\w~])CLS\s*\(\s*\)\s*:", []),
+         "construct": (r"explicit\s+CLS\s*\(\s*usize\s+capacity\s*\)\s*:", [("capacity", "nat")]),
+         "copyConstruct": (r"(?<![\w~])CLS\s*\(\s*const\s+CLS\s*&\s*other\s*\)\s*:", [])}
+
+
 ORDER = ["find", "removeValue", "removeIt", "removeKey", "removeFront", "removeBack", "insert", "clear", "assign", "appendAll",
          "removeAll", "equal", "assignSelf", "appendSelf", "removeSelf", "size", "isEmpty", "contains", "front", "back", "append", "prepend"]
 
@@ -1322,6 +1386,35 @@ class Gen:
             parts += texts[0]
             spec["done"] = True
             summary.append(f"{fn}:{len(stmts)}")
+        # constructors: the storage of the object (`t`: any table) with every member initialised
+        for name, (rx, params) in CTORS.items():
+            rx = rx.replace("CLS", cls)
+            ms = list(re.finditer(rx, src))
+            if name == "copyConstruct" and cls == "PoolMap" and not ms:
+                continue                                      # private and not defined
+            if len(ms) != 1:
+                raise Refuse(f"{cls}::{name}: {len(ms)} definitions found")
+            brace = src.index("{", ms[0].end())
+            init = src[ms[0].end():brace]
+            body = src[brace + 1:balanced(src, brace) - 1]
+            fn = f"{cls}::{name}"
+            spec = {"lean": name, "params": params, "ret": None, "other": True if name == "copyConstruct" else None}
+            specs[name] = spec
+            p = P(tokenize(body), fn)
+            stmts = ctor_statements(cls, name, init, fn) + p.stmts()
+            if p.peek() is not None:
+                raise Refuse(f"{fn}: trailing tokens")
+            flatb = re.sub(r"\s+", "", body)
+            if "endItem.prev=0;" not in flatb:
+                raise Refuse(f"{fn}: `endItem.prev` is not set to 0")
+            tr = Tr(cls, name, spec, self)
+            env = {pn: (pn, ty) for pn, ty in params}
+            lines = tr.run(stmts, env, "  ")
+            sig = "".join(f" ({pn} : {LEAN_TY[ty]})" for pn, ty in params)
+            parts += tr.aux
+            parts.append(f"def {name} (h : Nat → Nat) (t : PTable){tr.osig()}{sig} : Option PTable :=\n" + "\n".join(lines) + "\n")
+            spec["done"] = True
+            summary.append(f"{name}:{len(stmts)}")
         # swap
         if not WITH_SWAP:
             return parts, f"{cls}({' '.join(summary)} stmts)"
